@@ -47,6 +47,19 @@ def cases(tier, rng, dist):
 
 def run(c):
     x = interned(np.array(c["x"], dtype=np.int64))
+    # memory layout of the caller's array (values identical): C order, Fortran order, a transposed view, every second
+    # row of a larger buffer, int32 / int16 dtypes -- chosen from the content so that replays are exact
+    lay = (len(c["x"]) * 7 + sum(abs(v) % 11 for r in c["x"] for v in r)) % 6 if "layout" not in c else c["layout"]
+    if lay == 1:
+        x = np.asfortranarray(x)
+    elif lay == 2:
+        x = np.ascontiguousarray(x.T).T
+    elif lay == 3:
+        buf = np.zeros((2 * x.shape[0], x.shape[1]), dtype=np.int64); buf[::2] = x; x = buf[::2]
+    elif lay == 4 and all(abs(v) < 2**31 for r in c["x"] for v in r):
+        x = np.asfortranarray(x.astype(np.int32))
+    elif lay == 5 and all(abs(v) < 2**15 for r in c["x"] for v in r):
+        x = np.asfortranarray(x.astype(np.int16))
     x0 = x.copy()
     d = guarded(lambda: np.asarray(qa.find_duplicate_rows(x)).tolist())
     m1 = bool((x == x0).all())
